@@ -412,8 +412,9 @@ class Check:
             "coverage": cov, "assumptions": self.assumptions, "wall_s": round(wall, 3),
             "violations": len(violations),
         }
-        (VERIF / "evidence").mkdir(exist_ok=True)
-        (VERIF / "evidence" / f"{self.pid}.json").write_text(json.dumps(ev, indent=1, default=str) + "\n")
+        evdir = Path(os.environ.get("VERIF_EVIDENCE_DIR") or (VERIF / "evidence"))
+        evdir.mkdir(parents=True, exist_ok=True)
+        (evdir / f"{self.pid}.json").write_text(json.dumps(ev, indent=1, default=str) + "\n")
 
         for ln in lines:
             print(ln)
